@@ -14,6 +14,7 @@ CLAIMS = {
  "C03": ("model_checking", "Every reachable state within the bounds: Values() complete, duplicate-free, causal, sorted by the configured comparator (comparator verdicts are solver terms when clocks/hashes are symbolic) and independent of arrival order.", "§5 C03"),
  "C04": ("model_checking", "Every append in every bounded history, with symbolic initial clocks and a choice of pointer counts: predecessors = heads, clock id, strict clock dominance over all entries (solver, 64-bit), single head, reference discipline.", "§5 C04"),
  "C05": ("model_checking", "Deep snapshot of every log before each step of every bounded history, compared field-wise after it.", "§5 C05"),
+ "C15": ("model_checking", "Iterator over the replica of every bounded history with every upper/lower bound combination and a symbolic amount, compared with a reference range computation; panics and a non-closed channel are violations.", "§5 C15"),
  "C16": ("model_checking", "Symbolic size bound n in [0,total+2] against the twin that merges unbounded, over the replicas of every bounded history and three orderings; panics are implicit violations.", "§5 C16"),
  "C19": ("model_checking", "Order laws as SMT obligations over all 2^64 clock times, symbolic clock-id bytes and symbolic hash ranks; sort.SliceStable interpreted from source for all input permutations of 3 entries.", "§5 C19"),
 }
